@@ -740,6 +740,24 @@ func (e *Env) evalCall(n *ECall) Val {
 			sfail("disjoint needs slices")
 		}
 		return boolVal(not(eq(a.Sl[0], b.Sl[0])))
+	case "callres":
+		// callres(name, n): result of the n-th call named `name` in this function
+		id, ok := n.Args[0].(*EIdent)
+		if !ok || len(n.Args) != 2 {
+			sfail("callres(name, n)")
+		}
+		k, ok := n.Args[1].(*EInt)
+		if !ok {
+			sfail("callres: n must be a literal")
+		}
+		if vc.fn == nil || vc.callByName == nil {
+			sfail("callres is only available inside a function contract")
+		}
+		v, found := vc.callResult(id.Name, int(k.V.Int64()))
+		if !found {
+			sfail("callres: no call %s#%d in %s", id.Name, k.V.Int64(), vc.key)
+		}
+		return v
 	case "ghost":
 		return e.pureLoadLoc(e.ghostLoc(n), specInt)
 	case "val":
